@@ -1,6 +1,19 @@
 /-
 C19 / C11: the REST patch endpoint (`Store.patchDocument`), end to end through the store.
 All lemmas live in namespace `Orda.RestP`.
+
+* 0. `patchDocument_eq` / `run`: normal form of the endpoint.
+* 1./2. `patchDocument_answers_target`, `patchDocument_creates_target` (from `DPatch.patchByJSON_reaches_target`).
+* 4. `patchDocument_refusal_changes_nothing`.   5. `patchDocument_same_is_silent` (`patchDocument_same_eq`).
+* 3a. replica side: `patch_remote` — the buffer the patch leaves (one operation, or ONE transaction unit) carries the client
+  sequence numbers 1, 2, … and `receive` of it on any replica holding the same document gives the patched document
+  (`step_sim` from `DLR.local_call_core` + `DLR.execRemoteBase_is_applyD_weak`; needs `DLR.HistOK`).
+* 3b. server side: `processPack_admin` — the volatile admin's push is ACCEPTED (proved, from checkpoint ⟨ver, 0⟩, no stored
+  subscription of the admin id, sequence numbers 1, 2, …); `latest_pushed` — `Store.latest` after the push is the old latest
+  state receiving the pushed operations.
+* 3. `patchDocument_stores_target`.
+* 6. `Ex`: a store reached by makeCollection / processClient / two processPushPull of a real client, all hypotheses of (1), (3)
+  discharged; `Ex.emptyLog_not_stored`: why `hpos` is needed (answer OK, nothing stored, for a datatype with an empty log).
 -/
 import Orda.Model.Rest
 import Orda.Proofs.DocPatch
@@ -746,5 +759,150 @@ theorem patchDocument_stores_target
     refine ⟨{ d with sseqEnd := d.sseqEnd + r2.buffer.length }, q1, d.sseqEnd + r2.buffer.length, ?_, ?_, d1, p8, p3⟩
     · exact find_upsert hlog.duidNodup col.num key hd rfl rfl rfl
     · rw [latest_pushed hlog hdm hl, p7]
+
+/-! ## 6. non-vacuity: a store reached by the public requests, patched through the endpoint
+(closed computations are checked by the kernel: `decide +kernel`) -/
+
+instance : DecidableEq JVal := fun a b => decidable_of_iff _ (PD.beq_eq a b)
+deriving instance DecidableEq for DKind
+deriving instance DecidableEq for DNode
+deriving instance DecidableEq for Doc
+deriving instance DecidableEq for Rpc
+deriving instance DecidableEq for Notification
+deriving instance DecidableEq for CollectionDoc
+
+/-- the invariant of the temporary replica from a replica with the same document and an older clock of the same era -/
+theorem docInv_tmp (r0 rc : Replica) (tmpCuid : String) (ver : Nat) (hst : r0.state = rc.state)
+    (he : r0.opId.era = rc.opId.era) (hle : rc.opId.lamport ≤ r0.opId.lamport) (h : DP.DocInv rc) :
+    DP.DocInv { r0 with opId := { r0.opId with cuid := tmpCuid }, cp := ⟨ver, 0⟩ } := by
+  obtain ⟨dd, hs, I, hk⟩ := h
+  exact ⟨dd, hst.trans hs, DTx.dinv_clock he hle I, hk⟩
+
+theorem docInv_tmp_state {r0 : Replica} {tmpCuid : String} {ver : Nat}
+    (h : DP.DocInv { r0 with opId := { r0.opId with cuid := tmpCuid }, cp := ⟨ver, 0⟩ }) : ∃ dd, r0.state = .doc dd := by
+  obtain ⟨dd, hs, _, _⟩ := h
+  exact ⟨dd, hs⟩
+
+namespace Ex
+
+def c1 : Call := .dput Ts.oldest "a" (.arr [.num 1, .obj [("x", .num 5)]])
+def c2 : Call := .dput Ts.oldest "k" (.str "v")
+
+/-- collection "col", client "c1" registered -/
+def st0 : Store := (({} : Store).makeCollection "col").1
+def st1 : Store := (st0.processClient false "col" ⟨"c1", "alice", 0, 0, 0⟩).1
+/-- the client creates the document "k" = `{"a": [1, {"x": 5}]}` and pushes its create pack (snapshot operation + put) -/
+def w0 : WDt := ⟨((Replica.new .document "c1" true).call c1).1, "k", "duid1", .dueToCreate⟩
+def st2 : Store := (st1.processPushPull "col" "c1" [w0.createPack]).1
+def resp1 : Pack := match (st1.processPushPull "col" "c1" [w0.createPack]).2.1 with | .ok (p :: _) => p | _ => default
+/-- … applies the answer, puts "k": "v", and pushes again -/
+def w1 : WDt := (w0.applyPack resp1).1
+def w2 : WDt := { w1 with rep := (w1.rep.call c2).1 }
+def st3 : Store := (st2.processPushPull "col" "c1" [w2.createPack]).1
+
+def col : CollectionDoc := ⟨"col", 1⟩
+def d : DatatypeDoc := (st3.getDatatypeByKey 1 "k").getD default
+abbrev r0 : Replica := ((st3.latest d).getD default).1
+/-- the client's replica, as reached by its two calls -/
+def rc : Replica := (((Replica.new .document "c1" true).call c1).1.call c2).1
+
+/-- the target (keys not sorted): "k" changes, the object inside the array changes, the array grows -/
+def tgt : List (String × JVal) := [("k", .str "w"), ("a", .arr [.num 1, .obj [("x", .num 6)], .num 3])]
+
+theorem getD_of_isSome {α : Type} [Inhabited α] {o : Option α} (h : o.isSome = true) : o = some (o.getD default) := by
+  cases o with
+  | none => cases h
+  | some x => rfl
+
+theorem pair_of_isSome {α β : Type} [Inhabited α] [Inhabited β] {o : Option (α × β)} {n : β} (h1 : o.isSome = true)
+    (h2 : (o.getD default).2 = n) : o = some ((o.getD default).1, n) := by
+  cases o with
+  | none => cases h1
+  | some x => cases x; simp only [Option.getD_some] at h2 ⊢; rw [h2]
+
+theorem hc : st3.getCollection "col" = some col := by decide +kernel
+theorem hd : st3.getDatatypeByKey col.num "k" = some d := getD_of_isSome (by decide +kernel)
+theorem ht : d.typ = .document := by decide +kernel
+theorem three_ops : st3.operations.map (fun o => (o.sseq, o.op.id.cuid, o.op.id.seq)) = [(1, "c1", 1), (2, "c1", 2), (3, "c1", 3)] := by
+  decide +kernel
+theorem hl : st3.latest d = some (r0, 3) := pair_of_isSome (by decide +kernel) (by decide +kernel)
+theorem life_rc : DR.Life "c1" true rc :=
+  .step (.step .new (.call _ c1 (by simp [c1, DP.CallKeysND, DC.JKeysND, DC.JKeysNDList, DC.JKeysNDKvs])))
+    (.call _ c2 (by simp [c2, DP.CallKeysND, DC.JKeysND]))
+
+def docOf? : DState → Option Doc
+  | .doc d => some d
+  | _ => none
+
+theorem docOf?_some {s : DState} {d : Doc} (h : docOf? s = some d) : s = .doc d := by
+  cases s <;> simp [docOf?] at h
+  rw [h]
+
+/-- the server's rebuilt state is the client's document -/
+theorem r0_doc : docOf? r0.state = docOf? rc.state := by decide +kernel
+
+theorem r0_state : r0.state = rc.state := by
+  obtain ⟨dd, hs, _, _⟩ := DR.docInv_life "c1" true rc life_rc
+  have h := r0_doc
+  rw [hs] at h ⊢
+  exact docOf?_some h
+
+theorem hinv : DP.DocInv { r0 with opId := { r0.opId with cuid := "tmp" }, cp := ⟨3, 0⟩ } :=
+  docInv_tmp r0 rc "tmp" 3 r0_state (by decide +kernel) (by decide +kernel) (DR.docInv_life "c1" true rc life_rc)
+
+theorem hlog : LogInv st3 :=
+  logInv_processPushPull _ _ _ _ (logInv_processPushPull _ _ _ _
+    (logInv_processClient _ _ _ _ (logInv_makeCollection _ _ logInv_empty)))
+
+theorem hend : 3 = d.sseqEnd := by decide +kernel
+theorem hadmin : d.sub patchApiCuid false = none := Option.isNone_iff_eq_none.1 (by decide +kernel)
+theorem hhist : ∀ d0, r0.state = .doc d0 → DLR.HistOK d0 := by
+  intro d0 h
+  exact DLR.histOK_life "c1" true rc life_rc d0 (r0_state.symm.trans h)
+
+theorem tgt_nonull : (JVal.obj tgt).hasNull = false := by decide +kernel
+theorem tgt_keys : DC.JKeysND (.obj tgt) := by simp [tgt, DC.JKeysND, DC.JKeysNDKvs, DC.JKeysNDList]
+/-- the target with its keys sorted: what the answer is canonically equal to -/
+theorem tgt_canon : (JVal.obj tgt).canon = .obj [("a", .arr [.num 1, .obj [("x", .num 6)], .num 3]), ("k", .str "w")] := by
+  decide +kernel
+
+/-- (1) instantiated: the answer, shown -/
+example : ∃ v, (st3.patchDocument "col" "k" (.obj tgt) "dX" "tmp").2.1 = .ok v ∧
+    v.canon = .obj [("a", .arr [.num 1, .obj [("x", .num 6)], .num 3]), ("k", .str "w")] :=
+  tgt_canon ▸ patchDocument_answers_target st3 "col" "k" "dX" "tmp" col d r0 3 hc hd ht hl hinv tgt tgt_nonull tgt_keys
+
+/-- (3) instantiated: all hypotheses discharged -/
+example : ∃ d' r' ver', (st3.patchDocument "col" "k" (.obj tgt) "dX" "tmp").1.getDatatypeByKey col.num "k" = some d' ∧
+    (st3.patchDocument "col" "k" (.obj tgt) "dX" "tmp").1.latest d' = some (r', ver') ∧
+    (∃ dd, r'.state = .doc dd ∧ dd.view.canon = (JVal.obj tgt).canon) :=
+  patchDocument_stores_target st3 "col" "k" "dX" "tmp" col d r0 3 hc hd ht hl hinv hlog hend (by decide) hadmin hhist
+    tgt tgt_nonull tgt_keys
+/-- (2) instantiated: a key that does not exist yet -/
+example : ∃ v, (st3.patchDocument "col" "new" (.obj tgt) "dX" "tmp").2.1 = .ok v ∧ v.canon = (JVal.obj tgt).canon :=
+  patchDocument_creates_target st3 "col" "new" "dX" "tmp" col hc (Option.isNone_iff_eq_none.1 (by decide +kernel)) tgt tgt_nonull tgt_keys
+
+/-- (5) instantiated: patching to the current value -/
+example : ∃ dd, r0.state = .doc dd ∧ (st3.patchDocument "col" "k" dd.view "dX" "tmp").1 = st3 := by
+  obtain ⟨dd, hs⟩ := docInv_tmp_state (r0 := r0) (tmpCuid := "tmp") (ver := 3) hinv
+  exact ⟨dd, hs, (patchDocument_same_is_silent st3 "col" "k" "dX" "tmp" col d r0 3 dd hc hd ht hl hs hinv).1⟩
+
+/-! ### why `hpos` is there: a datatype whose log is EMPTY (created by a create pack without operations — no real client sends
+    one).  The endpoint takes version 0 for "to be created", its pack carries the create bit, the server refuses it
+    (duplicate key, 302): the endpoint answers OK with the target, and NOTHING is stored. -/
+
+def stE : Store := (st1.processPushPull "col" "c1"
+  [{ key := "e", duid := "duidE", create := true, cp := ⟨0, 0⟩, typ := .document, ops := [] }]).1
+
+theorem emptyLog_exists : (stE.getDatatypeByKey 1 "e").map (fun x => (x.duid, x.sseqEnd)) = some ("duidE", 0) := by
+  decide +kernel
+
+theorem emptyLog_not_stored :
+    (stE.patchDocument "col" "e" (.obj tgt) "dX" "tmp").2.1 =
+      .ok (.obj [("a", .arr [.num 1, .obj [("x", .num 6)], .num 3]), ("k", .str "w")]) ∧
+    (stE.patchDocument "col" "e" (.obj tgt) "dX" "tmp").1.operations.length = 0 ∧
+    (stE.patchDocument "col" "e" (.obj tgt) "dX" "tmp").1.datatypes.map (fun x => (x.duid, x.sseqEnd)) = [("duidE", 0)] := by
+  decide +kernel
+
+end Ex
 
 end Orda.RestP
